@@ -99,10 +99,10 @@ CHECKS.update({
 ADDED = {
     "C01": "; random play from extreme-material and crowded-line corpora; clocks varied in the families",
     "C03": "; worker streams incl. sampled capture searches node by node (SearchWB.tla); lines printed by `weechess evaluate` (SearchTrace!TCliEval) and `info pv` lines of the UCI process (UciTrace!LanFollow); roots with high halfmove clocks, doomed / single-move / special-shaped roots",
-    "C05": "; MINOR family (king and one minor each); 194 mined terminal positions of 80 shapes and the extreme-material corpus evaluated the same way",
+    "C05": "; MINOR family (king and one minor each) and the en-passant family; 194 mined terminal positions of 80 shapes and the extreme-material corpus evaluated the same way",
     "C06": "; CertTrace.tla: strategy certificates of an untrusted solver checked move by move by TLC for the mate corpus (incl. under-promotion and single-evasion roots) and its colour mirrors",
     "C07": "; UciInd.tla: the session invariants proved inductive by Apalache (any number of commands); UciThreads.tla: the session at the grain of its threads, model-checked incl. refinement of Uci.tla and two counterexample guards, bound by UciThreadsTrace.tla to numbered thread events of real sessions; every-legal-move position sessions",
-    "C08": "; ownership variants (recoloured, exchanged); hashers meet State values in rotating order; SearchWB!OneKeyPerPosition on white-box searches",
+    "C08": "; ownership variants (recoloured, exchanged); two-component variants (rights together with en passant) from bases holding every right and every en-passant file; hashers meet State values in rotating order; SearchWB!OneKeyPerPosition on white-box searches",
     "C10": "; positions with completely occupied slider lines (mined) and extreme material",
     "C12": "; the coordinate text of every legal move of selected positions fed through `position ... moves` of the UCI process and read back (UciTrace.tla)",
     "C13": "; MINOR family, mined terminal positions, extreme-material corpus",
@@ -110,7 +110,7 @@ ADDED = {
     "C16": "; lookups repeated with other move counters; book answers of real UCI sessions judged against the relation built by Book.tla (UciTrace.tla with BOOK)",
     "C17": "; mined roots holding a castling right whose recorded successors are reached by right-losing quiet moves; tablebase-free clause (no winning evaluation with a first move into a recorded position)",
     "C18": "; UciInd.tla (Apalache, unbounded); sessions where the first go after ucinewgame is answered from the book",
-    "C19": "; public triples with slow first iterations, with an unrelated analysis running in the same process, earlier memories dropped; pairs through `weechess evaluate`; the single-worker premise observed by hook (MODEL-DRIFT)",
+    "C19": "; public triples with slow first iterations, with an unrelated analysis running in the same process, earlier memories dropped, events read live vs after the search; pairs through `weechess evaluate`; the single-worker premise observed by hook (MODEL-DRIFT)",
     "C20": "; every value compared in both directions with all values differing in exactly one attribute",
 }
 for _k, _v in ADDED.items():
